@@ -818,6 +818,10 @@ def replay(case: dict):
     _common.use_repo()
     try:
         fails, _, _ = _check_case(case)
+    except KeyError as e:
+        if e.args and isinstance(e.args[0], str) and e.args[0] not in case and e.args[0] in ("seed", "salt", "n", "check", "window", "w_lo", "w_hi", "order", "peak", "requests"):
+            raise ValueError(f"malformed C20 case: field {e.args[0]!r} is missing")  # a harness problem, not a verdict on the real code
+        return False, f"C20.exception {type(e).__name__}: {e}"
     except Exception as e:  # noqa
         return False, f"C20.exception {type(e).__name__}: {e}"
     if fails:
